@@ -33,7 +33,7 @@ theorem C16_rollback_syntax (w : World) (i : ReloadIn) (hc : i.compileOk = false
     `livepatch_failure_not_atomic` below) -/
 theorem C16_registry_restored (w : World) (i : ReloadIn) (objs : List Obj) (e : Err)
     (hc : i.compileOk = true) (ho : i.outcome = .ok objs)
-    (hl : lp { modname := some i.name, sysmods := aset i.name w.heap.length w.sysmods, fx := i.fx } i.fuel true []
+    (hl : lp { modname := some i.name, sysmods := aset i.name w.heap.length w.sysmods, fx := i.fx, dyn := i.dyn } i.fuel true []
             i.module w.heap.length { heap := w.heap ++ objs, cache := [] } = .error e) :
     (xreload w i).2 = .error e ∧ (xreload w i).1.sysmods = w.sysmods := by
   unfold xreload
@@ -79,7 +79,7 @@ theorem C16_names (w w' : World) (i : ReloadIn) (objs : List Obj) (m D N : Id) (
     (hMo : (w.heap ++ objs)[i.module]? = some (.module D))
     (hMn : (w.heap ++ objs)[w.heap.length]? = some (.module N))
     (hD : (w.heap ++ objs)[D]? = some (.dict ed)) (hN : (w.heap ++ objs)[N]? = some (.dict en))
-    (hM : i.module ≠ w.heap.length) (hne : D ≠ N)
+    (hM : i.module ≠ w.heap.length) (hne : D ≠ N) (hdyn : dynOf i.dyn D = dynOf i.dyn N)
     (h : xreload w i = (w', .ok m)) :
     m = i.module ∧ alookup i.name w'.sysmods = some i.module ∧
       ∃ e', w'.heap[D]? = some (.dict e') ∧ ∀ k, hasKey k e' = (hasKey k en || decide (loadtimeKey = k)) := by
@@ -88,7 +88,7 @@ theorem C16_names (w w' : World) (i : ReloadIn) (objs : List Obj) (m D N : Id) (
   split at h
   · cases h
   · rename_i r s hl
-    have key := lp_module_names (s := { heap := w.heap ++ objs, cache := [] }) hM hne rfl hMo hMn hD hN hl
+    have key := lp_module_names (s := { heap := w.heap ++ objs, cache := [] }) hM hne rfl hMo hMn hD hN hdyn hl
     obtain ⟨hr, hMo', e', hD', hk⟩ := key
     simp only [hMo'] at h
     split at h
@@ -124,9 +124,9 @@ theorem C16_function {cx : Ctx} {fuel : Nat} {vs : List Id} {fo fn : Id} {s s' :
     (hne : fo ≠ fn) (hvs : fo ∉ vs) (hc : s.cache.find? (fun e => e.1 = (fo, fn)) = none)
     (hfo : s.heap[fo]? = some (.func n m c d dc di ce fv)) (hfn : s.heap[fn]? = some (.func n' m' c' d' dc' di' ce' fv'))
     (h : lp cx fuel false vs fo fn s = .ok (r, s')) :
-    (patchable cx m m' = true → funcCompat s.heap fo fn = true →
+    (patchable cx m m' = true → funcCompat cx.dyn s.heap fo fn = true →
         r = fo ∧ (NoMethRef s.heap fo → s'.heap[fo]? = some (.func n m c' d' dc' di ce fv))) ∧
-    (patchable cx m m' = true → funcCompat s.heap fo fn = false → r = fn ∧ s'.heap = s.heap) ∧
+    (patchable cx m m' = true → funcCompat cx.dyn s.heap fo fn = false → r = fn ∧ s'.heap = s.heap) ∧
     (patchable cx m m' = false → r = fn ∧ s'.heap = s.heap) := by
   cases fuel with
   | zero => unfold lp at h; exact (fail_ok.mp h).elim
@@ -162,7 +162,7 @@ theorem C16_function {cx : Ctx} {fuel : Nat} {vs : List Id} {fo fn : Id} {s s' :
       obtain ⟨e1, e2⟩ := getSt_ok h13
       rw [e1] at h14; rw [e2] at h14
       clear h13 e1 e2
-      by_cases hcompat : funcCompat s.heap fo fn = true
+      by_cases hcompat : funcCompat cx.dyn s.heap fo fn = true
       · simp only [hcompat, Bool.not_true, Bool.false_eq_true, if_false] at h14
         refine ⟨fun _ _ => ?_, fun _ hf => ?_, fun hf => ?_⟩
         · unfold lpFunctionBody at h14
@@ -189,7 +189,7 @@ theorem C16_function {cx : Ctx} {fuel : Nat} {vs : List Id} {fo fn : Id} {s s' :
           exact hfo8
         · rw [hcompat] at hf; cases hf
         · rw [hsm] at hf; cases hf
-      · have hcf : funcCompat s.heap fo fn = false := by simpa using hcompat
+      · have hcf : funcCompat cx.dyn s.heap fo fn = false := by simpa using hcompat
         simp only [hcf, Bool.not_false, if_true] at h14
         obtain ⟨hr, hs⟩ := pure_ok.mp h14
         rw [hs]
@@ -215,6 +215,7 @@ theorem C16_class {cx : Ctx} {fuel : Nat} {vs : List Id} {co cn : Id} {s s' : St
     {n m sl b a n' m' sl' b' a'}
     (hne : co ≠ cn) (hvs : co ∉ vs) (hc : s.cache.find? (fun e => e.1 = (co, cn)) = none)
     (hco : s.heap[co]? = some (.cls n m sl b a)) (hcn : s.heap[cn]? = some (.cls n' m' sl' b' a'))
+    (hdyn : dynOf cx.dyn co = dynOf cx.dyn cn)
     (h : lp cx fuel false vs co cn s = .ok (r, s')) :
     (patchable cx m m' = true → optValEq s.heap (alookup slotsKey a) (alookup slotsKey a') = true →
         r = co ∧ ∃ b'' a'', s'.heap[co]? = some (.cls n m sl b'' a'') ∧ (∀ k, hasKey k a'' = clsTarget cx.fx a a' k) ∧
@@ -241,7 +242,7 @@ theorem C16_class {cx : Ctx} {fuel : Nat} {vs : List Id} {co cn : Id} {s s' : St
     unfold dispatch at h3
     simp only [bind_eq, pure_eq] at h3
     obtain ⟨kd, s4, h7, h8⟩ := bind_ok.mp h3
-    rw [resolveKind_cls hco hcn] at h7
+    rw [resolveKind_cls hco hcn hdyn] at h7
     cases h7
     by_cases hsm : patchable cx m m' = true
     · simp only [hsm, if_true] at h8
@@ -446,8 +447,8 @@ theorem D17_identity_lost :
 
 /-- … whereas with an equal cell value the hypothesis `funcCompat` of `C16_function` holds and identity is kept -/
 theorem D17_contrast_identity_kept :
-    bound (xreload w17 (in17 ['1'])).1.heap 1 sCl 2 = true ∧ funcCompat (w17.heap ++ new17 ['1']) 2 8 = true ∧
-    funcCompat (w17.heap ++ new17 ['2']) 2 8 = false := by decide
+    bound (xreload w17 (in17 ['1'])).1.heap 1 sCl 2 = true ∧ funcCompat [] (w17.heap ++ new17 ['1']) 2 8 = true ∧
+    funcCompat [] (w17.heap ++ new17 ['2']) 2 8 = false := by decide
 
 /-! D45: a cell holding a function that cannot be patched in place -/
 def sh : Str := ['h']
@@ -476,6 +477,26 @@ theorem D45_stale_cell :
 theorem D45_fixed : (xreload w45 (in45 { d45 := true })).1.heap[6]? = some (.cell 9) := by decide
 
 
+/-! Closure cells and the type lattice: `updatable` is by kind (isinstance), `sameType` by exact type -/
+def hCell : List Obj :=
+  [ .func ['f'] (some sM) 1 0 0 1 [2] [['c']], .dict [], .cell 3, .cls ['K'] (some sM) none [] [(docKey, 9)],
+    .func ['f'] (some sM) 2 0 0 5 [6] [['c']], .dict [], .cell 7, .cls ['K'] (some sM) none [] [(docKey, 9)],
+    .cell 10, noneAtom, .dict [(['a'], 9)], .cell 12, .dict [(['a'], 9), (['b'], 9)] ]
+
+/-- a method whose `__class__` cell holds a class with a non-default metaclass (here both `ABCMeta`) is still patched in
+    place — the updatable test is `isinstance(v, type)`, not `type(v) is type`; a *different* metaclass on the new side
+    makes the cell incompatible (`type(old) != type(new)`) -/
+theorem cell_metaclass_subclass_updatable :
+    funcCompat [(3, .foreign ['A']), (7, .foreign ['A'])] hCell 0 4 = true ∧
+    funcCompat [(3, .foreign ['A']), (7, .foreign ['E'])] hCell 0 4 = false ∧
+    funcCompat [] hCell 0 4 = true ∧
+    updatable hCell 3 = true := by decide
+
+/-- likewise a cell holding an instance of a dict subclass (both `OrderedDict`) whose *contents differ* is updatable -/
+theorem cell_dict_subclass_updatable :
+    cellsCompat [(10, .foreign ['O']), (12, .foreign ['O'])] hCell [8] [11] = true ∧
+    cellsCompat [(10, .foreign ['O']), (12, .foreign ['D'])] hCell [8] [11] = false := by decide
+
 /-! ### the hypotheses of the theorems above are satisfiable by non-trivial inputs -/
 
 /-- `C16_rollback`: a failure at statement 1 after the scratch module and one function were allocated, on the
@@ -501,9 +522,9 @@ def isOk (r : Except Err (Id × St)) : Bool := match r with | .ok _ => true | .e
 /-- `C16_function`: a direct `livepatch(old_func, new_func, modname)` on the closure heap — both branches occur -/
 example :
     isOk (lp { modname := some sM, sysmods := [] } 20 false [] 2 8 { heap := w17.heap ++ new17 ['1'], cache := [] }) = true ∧
-    funcCompat (w17.heap ++ new17 ['1']) 2 8 = true ∧ patchable { modname := some sM, sysmods := [] } (some sM) (some sM) = true ∧
+    funcCompat [] (w17.heap ++ new17 ['1']) 2 8 = true ∧ patchable { modname := some sM, sysmods := [] } (some sM) (some sM) = true ∧
     isOk (lp { modname := some sM, sysmods := [] } 20 false [] 2 8 { heap := w17.heap ++ new17 ['2'], cache := [] }) = true ∧
-    funcCompat (w17.heap ++ new17 ['2']) 2 8 = false := by decide
+    funcCompat [] (w17.heap ++ new17 ['2']) 2 8 = false := by decide
 
 /-- `C16_class`: a direct `livepatch(old_D, new_D, modname)` on the two-class heap, slots equal -/
 example :
